@@ -23,8 +23,8 @@ ASSUMPTIONS = ["traces contain no addresses: graph instances are numbered per ru
                "serialised by the harness in the threaded contexts, as the GIL does for Python callers; only run() and the release "
                "of executors overlap (concurrent building is not claimed by the code base: GraphRuntimeRegistry is unsynchronised)",
                "g++-12 -O1 (and -fsanitize=thread for the thorough tier) build of the working tree with harness-side shims"]
-FLOORS = {"context_comparisons": {"quick": 500, "thorough": 6000}, "reused_builder_runs": {"quick": 100, "thorough": 1500},
-          "concurrent_case_runs": {"quick": 150, "thorough": 3000}, "global_state_reads": {"quick": 500, "thorough": 8000}, "captured_error_values": {"quick": 30, "thorough": 400}}
+FLOORS = {"context_comparisons": {"quick": 500, "thorough": 4500}, "reused_builder_runs": {"quick": 100, "thorough": 1200},
+          "concurrent_case_runs": {"quick": 150, "thorough": 2000}, "global_state_reads": {"quick": 500, "thorough": 3000}, "captured_error_values": {"quick": 30, "thorough": 200}}
 
 
 def gen_cases(rng, n, seed):
